@@ -900,19 +900,6 @@ func UpdateCounters(state *tree.PageState, style pr.ElementStyle) {
 		counterValues[nv.String] = append(slice, nv.Int)
 	}
 
-	for _, nv := range style.GetCounterSet().Values {
-		values := counterValues[nv.String]
-		if len(values) == 0 {
-			if siblingScopes.Has(nv.String) {
-				logger.WarningLogger.Println("ci.String shoud'nt be in siblingScopes")
-			}
-			siblingScopes.Add(nv.String)
-			values = append(values, 0)
-		}
-		values[len(values)-1] = nv.Int
-		counterValues[nv.String] = values
-	}
-
 	counterIncrement := style.GetCounterIncrement()
 	if counterIncrement.String == "auto" {
 		// "auto" is the initial value but is not valid in stylesheet:
@@ -936,6 +923,20 @@ func UpdateCounters(state *tree.PageState, style pr.ElementStyle) {
 		}
 		values[len(values)-1] += ci.Int
 		counterValues[ci.String] = values
+	}
+
+	// counter-set applies after counter-increment (CSS Lists 3 §4: reset, increment, set)
+	for _, nv := range style.GetCounterSet().Values {
+		values := counterValues[nv.String]
+		if len(values) == 0 {
+			if siblingScopes.Has(nv.String) {
+				logger.WarningLogger.Println("ci.String shoud'nt be in siblingScopes")
+			}
+			siblingScopes.Add(nv.String)
+			values = append(values, 0)
+		}
+		values[len(values)-1] = nv.Int
+		counterValues[nv.String] = values
 	}
 }
 
